@@ -55,8 +55,12 @@ type Gen struct {
 	maxDepth int
 	entry    *State
 	modset   func(r string) string // "ref r may be modified by the top function" ; nil = nothing
+	modRefs  []string
+	modAll   bool
 	checkFrame bool
 	unsupported int
+	allocs   map[string]allocType
+	preds    map[string]*typePredT
 }
 
 type closureInfo struct {
@@ -66,7 +70,7 @@ type closureInfo struct {
 
 func NewGen(eng *Engine, top *ssa.Function) *Gen {
 	return &Gen{eng: eng, prog: eng.prog, top: top, structs: map[string]string{}, strConst: map[string]string{}, nameCnt: map[string]int{},
-		notes: map[string]bool{}, closures: map[string]*closureInfo{}, specUsed: map[string]bool{}, maxDepth: 6}
+		notes: map[string]bool{}, closures: map[string]*closureInfo{}, specUsed: map[string]bool{}, maxDepth: 6, allocs: map[string]allocType{}, preds: map[string]*typePredT{}}
 }
 
 func (g *Gen) note(format string, args ...interface{}) { g.notes[fmt.Sprintf(format, args...)] = true }
@@ -91,6 +95,12 @@ func (g *Gen) declare(name, sort string) {
 func (g *Gen) def(base, sort, term string) string {
 	// every definition is an opaque constant with a defining equation, so that it may appear in patterns
 	n := g.fresh(base)
+	if strings.HasPrefix(sort, "(Array") && !strings.Contains(term, "(ite ") {
+		// heaps built by store/hmerge are macros: no array equality is introduced (array extensionality is expensive);
+		// merged heaps (ite) stay opaque constants so that they may appear inside triggers
+		g.out = append(g.out, fmt.Sprintf("(define-fun %s () %s %s)", n, sort, term))
+		return n
+	}
 	g.declare(n, sort)
 	g.out = append(g.out, fmt.Sprintf("(assert (= %s %s))", n, term))
 	return n
@@ -386,6 +396,55 @@ func (g *Gen) freshState(base string) *State {
 	return s
 }
 
+// elemKind: the base kind (I,B,Q,L,P,F) of a heap kind (map heaps share the element sorts)
+func elemKind(k string) string {
+	if k == "MD" {
+		return "B"
+	}
+	if strings.HasPrefix(k, "M") {
+		return k[1:]
+	}
+	return k
+}
+
+// framedHeap returns a heap that agrees with h on every reference below bound except the references in mods
+// (whose rows are arbitrary) and is arbitrary at and above bound. No quantifier is introduced (hmerge axiom of the prelude).
+func (g *Gen) framedHeap(base, k, h, bound string, mods []string, allocates bool) string {
+	return g.framedHeapK(base, k, h, bound, mods, nil, allocates)
+}
+
+// modTarget: one modifies target of a call: the object ref, the heap kinds its type has, and for slices the
+// range of slots that may change (the rest of the object is unchanged)
+type modTarget struct {
+	kinds    map[string]bool
+	off, len string // "" = whole object
+}
+
+func (g *Gen) framedHeapK(base, k, h, bound string, mods []string, modKinds []modTarget, allocates bool) string {
+	cur := h
+	ek := elemKind(k)
+	for i, m := range mods {
+		if modKinds != nil && i < len(modKinds) && modKinds[i].kinds != nil && !modKinds[i].kinds[k] {
+			continue
+		}
+		if modKinds != nil && i < len(modKinds) && modKinds[i].off != "" {
+			row := g.havoc(base+"_rng"+k, fmt.Sprintf("(Array Int %s)", heapElemSort[k]))
+			cur = fmt.Sprintf("(store %s %s (%s (select %s %s) %s %s %s %s))", cur, m, arrcopyFn[ek], cur, m, modKinds[i].off, row, modKinds[i].off, modKinds[i].len)
+			continue
+		}
+		row := g.havoc(base+"_row"+k, fmt.Sprintf("(Array Int %s)", heapElemSort[k]))
+		cur = fmt.Sprintf("(store %s %s %s)", cur, m, row)
+	}
+	if allocates {
+		fresh := g.havoc(base+"_new"+k, heapSort[k])
+		cur = fmt.Sprintf("(hmerge%s %s %s %s)", ek, cur, fresh, bound)
+	}
+	if cur == h {
+		return h
+	}
+	return g.def(base+"_H"+k, heapSort[k], cur)
+}
+
 // ---------- activation ----------
 
 type retInfo struct {
@@ -426,6 +485,7 @@ type Act struct {
 	loopOf  map[*ssa.BasicBlock][]*ssa.BasicBlock // block -> headers of loops containing it
 	panicked string
 	preEnv  map[ssa.Value]string
+	curReach string
 }
 
 func (a *Act) nm(base string) string { return a.prefix + base }
@@ -599,14 +659,58 @@ func (a *Act) store(st *State, t types.Type, ref, off, v string) {
 	st.H[k] = g.def("H"+k, heapSort[k], sto(st.H[k], ref, off, v))
 }
 
-func (a *Act) alloc(st *State, base string) string {
+func (a *Act) alloc(st *State, base string, at allocType) string {
 	g := a.g
 	ref := g.def(base+"_ref", "Int", st.Next)
+	// guarded by the path condition: allocations on different paths may receive the same reference number
+	reach := a.curReach
+	if reach == "" {
+		reach = "true"
+	}
+	g.assumeIf(reach, fmt.Sprintf("(= (rtype %s) %d)", ref, g.allocTag(at)))
 	st.Next = g.def("next", "Int", fmt.Sprintf("(+ %s 1)", ref))
+	// only the heap kinds that an object of this type has are initialised (the others are never read at this reference)
+	kinds := map[string]bool{}
+	allocKinds(at.typ, kinds)
 	for _, k := range heapKinds {
+		if !kinds[k] {
+			continue
+		}
 		st.H[k] = g.def("H"+k, heapSort[k], fmt.Sprintf("(store %s %s %s)", st.H[k], ref, heapZero[k]))
 	}
 	return ref
+}
+
+// allocKinds: heap kinds used by an object of type t (maps: domain and value heaps)
+func allocKinds(t types.Type, w map[string]bool) {
+	switch u := t.Underlying().(type) {
+	case *types.Map:
+		w["MD"] = true
+		if slots(u.Elem()) == 1 && kindOf(u.Elem()) != "" {
+			w["M"+kindOf(u.Elem())] = true
+		}
+	case *types.Chan:
+	default:
+		typeKinds(t, w)
+	}
+}
+
+// targetKinds: heap kinds of the object a modifies-target value refers to
+func targetKinds(t types.Type) map[string]bool {
+	w := map[string]bool{}
+	switch u := t.Underlying().(type) {
+	case *types.Pointer:
+		allocKinds(u.Elem(), w)
+	case *types.Slice:
+		allocKinds(u.Elem(), w)
+	case *types.Map:
+		allocKinds(u, w)
+	default:
+		for _, k := range heapKinds {
+			w[k] = true
+		}
+	}
+	return w
 }
 
 // ---------- driver for one function body ----------
@@ -669,6 +773,7 @@ func (a *Act) run(args []string, st0 *State, reach0 string) {
 			st = a.mergeStates(ins)
 		}
 		a.reach[b] = reach
+		a.curReach = reach
 		a.curBlk = b
 		isHeader := len(backs) > 0
 		if isHeader {
@@ -953,18 +1058,17 @@ func (a *Act) loopHead(b *ssa.BasicBlock, ins []edgeIn, backs []*ssa.BasicBlock,
 		if !wr && !allocates {
 			continue // untouched
 		}
-		st.H[k] = g.havoc(a.nm(fmt.Sprintf("loop%d_H%s", idx, k)), heapSort[k])
 		if !wr {
 			// only allocation: everything allocated before the loop is unchanged
-			g.assumeIf(reach, fmt.Sprintf("(forall ((r Int)) (! (=> (< r %s) (= (select %s r) (select %s r))) :pattern ((select %s r))))", stIn.Next, st.H[k], stIn.H[k], st.H[k]))
+			st.H[k] = g.framedHeap(a.nm(fmt.Sprintf("loop%d", idx)), k, stIn.H[k], stIn.Next, nil, true)
 			continue
 		}
-		// written: only the function-level frame is known
-		guard := fmt.Sprintf("(< r %s)", g.entry.Next)
-		if g.modset != nil {
-			guard = fmt.Sprintf("(and (< r %s) (not %s))", g.entry.Next, g.modset("r"))
+		// written: only the function-level frame is known (memory allocated before entry and outside modifies is unchanged)
+		if g.modAll {
+			st.H[k] = g.havoc(a.nm(fmt.Sprintf("loop%d_H%s", idx, k)), heapSort[k])
+			continue
 		}
-		g.assumeIf(reach, fmt.Sprintf("(forall ((r Int)) (! (=> %s (= (select %s r) (select %s r))) :pattern ((select %s r))))", guard, st.H[k], g.entry.H[k], st.H[k]))
+		st.H[k] = g.framedHeap(a.nm(fmt.Sprintf("loop%d", idx)), k, g.entry.H[k], g.entry.Next, g.modRefs, true)
 	}
 	headEnv := map[ssa.Value]string{}
 	for _, phi := range lc.phis {
@@ -973,7 +1077,7 @@ func (a *Act) loopHead(b *ssa.BasicBlock, ins []edgeIn, backs []*ssa.BasicBlock,
 		headEnv[phi] = n
 		lc.headVals[phi.Comment] = n
 		g.assumeIf(reach, rangeFact(phi.Type(), n))
-		g.assumeIf(reach, heapValWF(phi.Type(), n, st))
+		g.assumeIf(reach, g.heapValWF(phi.Type(), n, st))
 	}
 	lc.headEnv = headEnv
 	for _, ai := range lc.auto {
